@@ -299,8 +299,10 @@ def _unary(i, op, v, node):
     check_live(v, node)
     if isinstance(op, ast.Invert) and v.elem_sort == Bool:
         if v.ndim == 1:
-            return _cached(i, ("inv", _tid(v)), lambda: define1(i, v.shape[0], Bool, lambda k: z3.Not(z3.Select(v.data, k)), "inv",
-                                                                alts=[lambda k: z3.Select(v.data, k)]))
+            r_ = _cached(i, ("inv", _tid(v)), lambda: define1(i, v.shape[0], Bool, lambda k: z3.Not(z3.Select(v.data, k)), "inv",
+                                                              alts=[lambda k: z3.Select(v.data, k)]))
+            i.ctx.ghost["last_not_array"] = r_  # ghost handle for contracts (complement counting lemmas)
+            return r_
         return _cached(i, ("inv", _tid(v)), lambda: define2(i, v.shape[0], v.shape[1], Bool, lambda r, c: z3.Not(v.at(r, c)), "inv"))
     if isinstance(op, ast.USub) and v.elem_sort in (Int, Real):
         if v.ndim == 1:
